@@ -13,6 +13,32 @@ import (
 // values (a whole stream), the pairing original pointer <-> decoded pointer, which must stay a bijection.
 type Pairing struct {
 	o2d, d2o map[ptrKey]uintptr
+	// Containers: maps and non-empty slices are paired by identity as well (same map / same backing array and
+	// length in the original <=> same in the decoded value), where both sides have the same Go type
+	Containers bool
+}
+
+// container pairs the identity of a map or a non-empty slice; "" if consistent.
+func (p *Pairing) container(o, d reflect.Value, path string) (string, bool) {
+	if !p.Containers || o.Type() != d.Type() || o.Len() == 0 || (o.Kind() != reflect.Map && o.Kind() != reflect.Slice) {
+		return "", false
+	}
+	ok, dk := ptrKey{o.Pointer(), o.Type()}, ptrKey{d.Pointer(), d.Type()}
+	if o.Kind() == reflect.Slice {
+		// the same backing array with another length is another list
+		ok.p, dk.p = ok.p^uintptr(o.Len())<<48, dk.p^uintptr(d.Len())<<48
+	}
+	if x, seen := p.o2d[ok]; seen {
+		if x != dk.p {
+			return fmt.Sprintf("%s: a %s sent twice (the same %s over two paths) came back as two distinct ones", path, o.Kind(), o.Kind()), true
+		}
+		return "", true // already compared
+	}
+	if _, seen := p.d2o[dk]; seen {
+		return fmt.Sprintf("%s: two distinct %ss came back as one", path, o.Kind()), true
+	}
+	p.o2d[ok], p.d2o[dk] = dk.p, ok.p
+	return "", false
 }
 
 // ptrKey identifies an object by address and type (a struct and its first field share an address).
@@ -22,7 +48,7 @@ type ptrKey struct {
 }
 
 // NewPairing builds an empty pairing.
-func NewPairing() *Pairing { return &Pairing{map[ptrKey]uintptr{}, map[ptrKey]uintptr{}} }
+func NewPairing() *Pairing { return &Pairing{o2d: map[ptrKey]uintptr{}, d2o: map[ptrKey]uintptr{}} }
 
 func unwrapIface(v reflect.Value) reflect.Value {
 	for v.IsValid() && v.Kind() == reflect.Interface {
@@ -102,6 +128,11 @@ func (p *Pairing) Cmp(o, d reflect.Value, path string) string {
 		if o.Len() != d.Len() {
 			return fmt.Sprintf("%s: list length %d vs %d", path, o.Len(), d.Len())
 		}
+		if o.Kind() == reflect.Slice && d.Kind() == reflect.Slice {
+			if r, done := p.container(o, d, path); r != "" || done {
+				return r
+			}
+		}
 		for i := 0; i < o.Len(); i++ {
 			if r := p.Cmp(o.Index(i), d.Index(i), fmt.Sprintf("%s[%d]", path, i)); r != "" {
 				return r
@@ -114,6 +145,9 @@ func (p *Pairing) Cmp(o, d reflect.Value, path string) string {
 		}
 		if o.Len() != d.Len() {
 			return fmt.Sprintf("%s: map size %d vs %d", path, o.Len(), d.Len())
+		}
+		if r, done := p.container(o, d, path); r != "" || done {
+			return r
 		}
 		okeys := o.MapKeys()
 		sort.Slice(okeys, func(a, b int) bool { return fmt.Sprint(okeys[a].Interface()) < fmt.Sprint(okeys[b].Interface()) })
